@@ -666,6 +666,10 @@ fn slice(tier: Tier) -> Vec<(String, PProblem)> {
     for p in family_line12() {
         out.push(("line12".to_string(), p));
     }
+    // ten jobs of every kind, three vehicles of two types, reload, break, skills, relation
+    for p in family_mixed10() {
+        out.push(("mixed10".to_string(), p));
+    }
     out
 }
 
